@@ -52,7 +52,7 @@ func scratch(t testing.TB) string {
 
 func must(err error) {
 	if err != nil {
-		panic(err)
+		panic(fmt.Sprintf("BROKEN: harness file handling: %v", err))
 	}
 }
 
@@ -63,6 +63,7 @@ var chdirMu sync.Mutex
 func convert(d XDialect, dir string) (string, error) {
 	must(os.MkdirAll(dir, 0o755))
 	for _, f := range d.Files {
+		must(os.MkdirAll(filepath.Dir(filepath.Join(dir, f.Name+".xml")), 0o755))
 		must(os.WriteFile(filepath.Join(dir, f.Name+".xml"), []byte(f.XML()), 0o644))
 	}
 	chdirMu.Lock()
@@ -427,7 +428,11 @@ func compare(d XDialect, p probeDialect) error {
 			}
 		}
 	}
-	// enums
+	return compareEnums(d, p)
+}
+
+// compareEnums checks constants and text behaviour of every enum of a generated dialect (shared by C18 and C19).
+func compareEnums(d XDialect, p probeDialect) error {
 	names, entries, bitmask := d.MergedEnums()
 	for _, n := range names {
 		for _, e := range entries[n] {
@@ -655,6 +660,7 @@ func TestC18Generator(t *testing.T) {
 					cdir := filepath.Join(root, caseDir, fmt.Sprintf("clineg%d", i))
 					must(os.MkdirAll(cdir, 0o755))
 					for _, f := range d.Files {
+						must(os.MkdirAll(filepath.Dir(filepath.Join(cdir, f.Name+".xml")), 0o755))
 						must(os.WriteFile(filepath.Join(cdir, f.Name+".xml"), []byte(f.XML()), 0o644))
 					}
 					cmd := exec.Command(cli, d.Files[0].Name+".xml")
@@ -694,6 +700,7 @@ func TestC18Generator(t *testing.T) {
 				cdir := filepath.Join(root, caseDir, "cli")
 				must(os.MkdirAll(cdir, 0o755))
 				for _, f := range d.Files {
+					must(os.MkdirAll(filepath.Dir(filepath.Join(cdir, f.Name+".xml")), 0o755))
 					must(os.WriteFile(filepath.Join(cdir, f.Name+".xml"), []byte(f.XML()), 0o644))
 				}
 				cmd := exec.Command(cli, d.Files[0].Name+".xml")
